@@ -417,26 +417,26 @@ Proof.
   - apply IH. exact H.
 Qed.
 
-Lemma loop3_spec : forall F rl h idx,
-  loop3 F rl h idx = Fuel \/ loop3 F rl h idx = Ok (Done (init_hint (skipn idx rl) (N.of_nat idx) h)).
+Lemma loop3_spec : forall F cls h idx,
+  loop3 F cls h idx = Fuel \/ loop3 F cls h idx = Ok (Done (init_hint (map mkset (skipn idx cls)) (N.of_nat idx) h)).
 Proof.
-  induction F as [|F IH]; intros rl h idx; [left; reflexivity|].
+  induction F as [|F IH]; intros cls h idx; [left; reflexivity|].
   cbn [gen_start_resolution_algorithm_loop3]. unfold enumerate. rewrite nth_error_enumerate_from.
-  destruct (nth_error rl idx) as [c|] eqn:En; cbn [option_map].
-  - rewrite gen_is_trivial_agree. cbn [rbind]. rewrite (skipn_nth _ _ _ _ En). cbn [init_hint].
+  destruct (nth_error cls idx) as [c|] eqn:En; cbn [option_map].
+  - rewrite gen_is_trivial_agree. cbn [rbind]. rewrite (skipn_nth _ _ _ _ En). cbn [map init_hint].
     replace (N.of_nat idx + 1)%N with (N.of_nat (S idx)) by lia.
     assert (Eh : hidx (0 + Z.of_nat idx) = HIdx (N.of_nat idx)) by (unfold hidx; f_equal; lia).
-    destruct (is_trivial c); cbn [negb rbind]; [|rewrite Eh]; apply IH.
+    destruct (is_trivial (mkset c)); cbn [negb rbind]; rewrite ?Eh; apply IH.
   - right. apply nth_error_None in En. rewrite skipn_all2 by lia. reflexivity.
 Qed.
 
-Lemma loop3_fuel : forall F rl h idx, (length rl - idx < F)%nat -> loop3 F rl h idx <> Fuel.
+Lemma loop3_fuel : forall F cls h idx, (length cls - idx < F)%nat -> loop3 F cls h idx <> Fuel.
 Proof.
-  induction F as [|F IH]; intros rl h idx H; [lia|].
+  induction F as [|F IH]; intros cls h idx H; [lia|].
   cbn [gen_start_resolution_algorithm_loop3]. unfold enumerate. rewrite nth_error_enumerate_from.
-  destruct (nth_error rl idx) as [c|] eqn:En; cbn [option_map]; [|discriminate].
+  destruct (nth_error cls idx) as [c|] eqn:En; cbn [option_map]; [|discriminate].
   pose proof (nth_error_lt _ _ _ _ En).
-  rewrite gen_is_trivial_agree. cbn [rbind]. destruct (is_trivial c); cbn [negb rbind]; apply IH; lia.
+  rewrite gen_is_trivial_agree. cbn [rbind]. destruct (is_trivial (mkset c)); cbn [negb rbind]; apply IH; lia.
 Qed.
 
 Lemma gen_start_of_model : forall n cls v l h,
@@ -447,32 +447,30 @@ Proof.
   destruct cls as [|c0 cs'].
   { inversion H; subst. reflexivity. }
   cbv iota. cbv zeta.
-  destruct (loop3_spec F (map (fun v_cl => mkset v_cl) (c0 :: cs')) [] 0) as [E|E].
-  { exfalso. revert E. apply loop3_fuel. rewrite map_length. cbn [length] in *. lia. }
+  destruct (loop3_spec F (c0 :: cs') [] 0) as [E|E].
+  { exfalso. revert E. apply loop3_fuel. cbn [length] in *. lia. }
   rewrite E. cbn [rbind skipn N.of_nat].
-  change (map (fun v_cl => mkset v_cl) (c0 :: cs')) with (map mkset (c0 :: cs')).
   destruct (init_hint (map mkset (c0 :: cs')) 0%N []) as [|e h0'] eqn:Eh.
-  - inversion H; subst. destruct (llen (c0 :: cs') =? 1); reflexivity.
+  - inversion H; subst. repeat match goal with |- context [if ?c then _ else _] => destruct c end; reflexivity.
   - destruct (resolution_algorithm true n (e :: h0') (map fst (e :: h0'))) as [[[b l1] h1]| |] eqn:Er; cbn [rbind] in H;
       try discriminate.
-    rewrite (resolution_algorithm_to_gen _ _ _ _ _ _ Er F HF). cbn [rbind].
+    cbv iota. rewrite (resolution_algorithm_to_gen _ _ _ _ _ _ Er F HF). cbn [rbind].
     destruct b; inversion H; subst; reflexivity.
 Qed.
 
-Lemma loop3_mono : forall F rl h idx x, loop3 F rl h idx = Ok x -> forall F', (F <= F')%nat -> loop3 F' rl h idx = Ok x.
+Lemma loop3_mono : forall F cls h idx x, loop3 F cls h idx = Ok x -> forall F', (F <= F')%nat -> loop3 F' cls h idx = Ok x.
 Proof.
-  intros F rl h idx x H F' HF.
-  destruct (loop3_spec F rl h idx) as [E|E]; [congruence|].
-  destruct (loop3_spec F' rl h idx) as [E'|E']; [|congruence].
+  intros F cls h idx x H F' HF.
+  destruct (loop3_spec F cls h idx) as [E|E]; [congruence|].
+  destruct (loop3_spec F' cls h idx) as [E'|E']; [|congruence].
   exfalso.
-  (* F was enough, so is F' *)
-  revert E'. clear E. revert rl h idx x H F' HF.
-  induction F as [|F IH]; intros rl h idx x H F' HF; [discriminate|].
+  revert E'. clear E. revert cls h idx x H F' HF.
+  induction F as [|F IH]; intros cls h idx x H F' HF; [discriminate|].
   destruct F' as [|F']; [lia|].
   cbn [gen_start_resolution_algorithm_loop3] in *. unfold enumerate in *. rewrite nth_error_enumerate_from in *.
-  destruct (nth_error rl idx) as [c|]; cbn [option_map] in *; [|discriminate].
+  destruct (nth_error cls idx) as [c|]; cbn [option_map] in *; [|discriminate].
   rewrite gen_is_trivial_agree in *. cbn [rbind] in *.
-  destruct (is_trivial c); cbn [negb rbind] in *; eapply IH; eauto; lia.
+  destruct (is_trivial (mkset c)); cbn [negb rbind] in *; eapply IH; eauto; lia.
 Qed.
 
 Lemma gen_start_mono : forall F cls v, gen_start_resolution_algorithm F cls = Ok v ->
@@ -480,7 +478,7 @@ Lemma gen_start_mono : forall F cls v, gen_start_resolution_algorithm F cls = Ok
 Proof.
   intros F cls v H F' HF. unfold gen_start_resolution_algorithm in *.
   destruct cls as [|c0 cs']; [exact H|]. cbv iota zeta in *.
-  destruct (loop3 F (map (fun v_cl => mkset v_cl) (c0 :: cs')) [] 0) as [[h5|r]| |] eqn:E3; cbn [rbind] in H; try discriminate.
+  destruct (loop3 F (c0 :: cs') [] 0) as [[h5|r]| |] eqn:E3; cbn [rbind] in H; try discriminate.
   - rewrite (loop3_mono _ _ _ _ _ E3 F' HF). cbn [rbind].
     destruct h5 as [|e h5']; [exact H|]. cbv iota in *.
     destruct (gen_resolution_algorithm F (e :: h5') (map fst (e :: h5'))) as [[[b hh] ll]| |] eqn:Er; cbn [rbind] in H;
